@@ -25,6 +25,7 @@ enum {
   VS_COMPUTE_BEGIN,
   VS_COMPUTE_END,
   VS_ATTACH,
+  VS_SINK_LOCKED,
 };
 
 /* Event codes (H6). */
